@@ -1439,3 +1439,25 @@ func nodesToParts(ns []*Node) []interface{} {
 	}
 	return out
 }
+
+// FirstTokens maps every node reachable through Parts to the index of its first token.
+func FirstTokens(root *Node) map[*Node]int {
+	m := map[*Node]int{}
+	pos := 0
+	var rec func(n *Node)
+	rec = func(n *Node) {
+		m[n] = pos
+		for _, p := range n.Parts {
+			switch v := p.(type) {
+			case Tok:
+				pos++
+			case *Node:
+				if v != nil {
+					rec(v)
+				}
+			}
+		}
+	}
+	rec(root)
+	return m
+}
